@@ -156,8 +156,19 @@ def r02a(run, C, names):
                 c = full[0]
                 ok = len(c.args) == 2 and unparse(c.args[0]) == bound and value in names_in(c.args[1])
             # the reject branch is `not fullmatch`
-            rej = any(isinstance(a, ast.Call) and call_attr(a) == "fullmatch" and not p
-                      for n in raises for a, p in fa.facts.atoms_at(n))
+            def _no_match(a, p):
+                # `not fullmatch(..)`, `fullmatch(..) is None`, `not (fullmatch(..) is not None)`
+                if isinstance(a, ast.Call) and call_attr(a) == "fullmatch":
+                    return not p
+                if isinstance(a, ast.Compare) and len(a.ops) == 1 and isinstance(a.left, ast.Call) \
+                        and call_attr(a.left) == "fullmatch" and isinstance(a.comparators[0], ast.Constant) \
+                        and a.comparators[0].value is None:
+                    if isinstance(a.ops[0], (ast.Is, ast.Eq)):
+                        return p
+                    if isinstance(a.ops[0], (ast.IsNot, ast.NotEq)):
+                        return not p
+                return False
+            rej = any(_no_match(a, p) for n in raises for a, p in fa.facts.atoms_at(n))
             run.check("R02a", f, "`regex` requires a full match of the pattern", ok and rej, construct="regex relation",
                       message="Constraints.regex does not reject exactly when re.fullmatch(pattern, str(value)) fails",
                       necessity="with re.match / re.search a value with a valid prefix ('abc!' for [a-z]+) is accepted")
@@ -165,9 +176,10 @@ def r02a(run, C, names):
             # type-exactness: a raise guarded by type(value) != type(v) and not in the tolerance table
             ok = False
             for n in raises:
-                facts = {(unparse(a), p) for a, p in fa.facts.atoms_at(n)}
-                if (f"type({value}) != type({bound})", True) in facts and any(
-                        "TYPE_EXACT_TOLERANCE" in t and not p for t, p in facts):
+                from ..lib import literal
+                facts = {literal(a, bool(p)) for a, p in fa.facts.atoms_at(n)}       # normal form: (a == b, False) ...
+                differ = {(f"type({value}) == type({bound})", False), (f"type({bound}) == type({value})", False)}
+                if facts & differ and any("TYPE_EXACT_TOLERANCE" in t and " in " in t and not p for t, p in facts):
                     ok = True
             run.check("R02a", f, "`const` also requires type-exactness (modulo the numeric tolerance table)", ok,
                       construct="const type test", message="Constraints.const does not reject equal values of a "
